@@ -65,7 +65,9 @@ def run(ctx):
                 creds['sk'] = rng.choice(['pw1', 'u9', 'tok', 'other'])
                 r = rng.random()
                 if r < 0.3:
-                    creds['system_scope'] = 'all'
+                    creds[rng.choice(['system_scope', 'system'])] = 'all'
+                    if 'system' in creds and rng.random() < 0.5:
+                        creds['system_scope'] = None          # (a context dumped with to_dict() carries the key with no value)
                 elif r < 0.5:
                     creds['domain_id'] = 'd'
                 else:
@@ -110,6 +112,20 @@ def run(ctx):
                     cases.append({'kind': 'pair', 'a': outs[0]['obs'], 'b': b['obs'], '_call': b['_call'], '_texts': b['_texts'],
                                   '_creds': b['_creds'], '_target': b['_target'], '_dflt': b['_dflt'], '_registered': b['_registered']})
                     n_pairs += 1
+        # plain-dict credentials with either spelling of the system scope (and the other key present without a value)
+        for scopes in (['system'], ['project'], ['domain', 'system']):
+            for sc_creds in ({'system': 'all'}, {'system': 'all', 'system_scope': None}, {'system_scope': 'all'}, {'system_scope': 'all', 'system': None},
+                             {'system_scope': None, 'project_id': 'p'}, {'system': None, 'domain_id': 'd'}):
+                rules = [('p:x', ev.role('r1'))]
+                for roles in (['r1'], []):
+                    creds = dict({'roles': roles, 'user_id': 'u'}, **sc_creds)
+                    for mode in ({'doraise': 0}, {'doraise': 1}, {'doraise': 1, 'custom': 1, 'xargs': [], 'xkw': {'k': 1}}):
+                        for by in ('name', 'check', 'authorize'):
+                            call = dict({'by': 'check' if by == 'check' else 'name', 'name': 'p:x', 'credskind': 'map', 'authorize': 1 if by == 'authorize' else 0}, **mode)
+                            if by == 'check':
+                                call['tree'] = ev.role('r1')
+                            cases.append(ec.enforce_case(rules, call, {}, creds, dflt=('opt', None), registered=[('p:x', scopes)], enforce_scope=True,
+                                                         check_scopes=scopes if by == 'check' else (), checklog=1, want='c07'))
         # custom checks that answer with every kind of falsy / truthy value (None, 0, '', [], {}, 0.0 / 'yes', 1,
         # [0], ...): falsy means denied, whatever the value - alone, behind an alias, under and / or
         for pidn in range(7):
